@@ -26,8 +26,13 @@ inductive Done (σ : Type) (ρ : Type) where
   | ret (r : ρ)
   | stuck
 
-/-- `for _, x := range xs { body }` — never `stuck` -/
-def forRange {α σ ρ : Type} : List α → σ → (α → σ → Step σ ρ) → Done σ ρ
+/-- result of a `range` loop (it always terminates) -/
+inductive RDone (σ : Type) (ρ : Type) where
+  | done (s : σ)
+  | ret (r : ρ)
+
+/-- `for _, x := range xs { body }` -/
+def forRange {α σ ρ : Type} : List α → σ → (α → σ → Step σ ρ) → RDone σ ρ
   | [], s, _ => .done s
   | x :: xs, s, f =>
     match f x s with
@@ -121,6 +126,27 @@ def timeAfter (a b : Int) : Bool := decide (a > b)
 def timeBefore (a b : Int) : Bool := decide (a < b)
 def timeAdd (a d : Int) : Int := a + d
 def timeSub (a b : Int) : Int := a - b
+
+/-! ## tracker calls as an effect log -/
+
+/-- `nil` of a pointer / slice the translation models as an `Option` -/
+def nil {α : Type} : Option α := none
+
+/-- one `tracker.TrackNames(leftType, leftName, rightType, rightName)` call -/
+structure TrackCall where
+  lt : String
+  ln : String
+  rt : String
+  rn : String
+deriving DecidableEq, Repr
+
+def trackNames (fx : List TrackCall) (lt ln rt rn : String) : List TrackCall := fx ++ [⟨lt, ln, rt, rn⟩]
+
+/-- `hatypes.Host` as `trackStrictHosts` sees it: `rootBegin` is `host.FindPath("/", MatchBegin)` -/
+structure HostView where
+  Hostname : String
+  rootBegin : Option Unit
+deriving DecidableEq, Repr
 
 /-! ## views of repository structs (only the fields the translated functions touch) -/
 
